@@ -1014,6 +1014,25 @@ def _table_columns(seed, only=None):
     for cls, mine in (("INT_COLUMNS", INT_COLS), ("BOOL_COLUMNS", BOOL_COLS), ("FLOAT_COLUMNS", FLOAT_COLS)):
         if tuple(getattr(activation, cls)) != tuple(mine):
             notes.append("activation.%s = %r differs from the documented classes %r" % (cls, getattr(activation, cls), mine))
+    # the table states the half-life of an activated parent twice (its own row; the 'b' rows it feeds): they must agree,
+    # otherwise the exact chain solution "with the tabulated half-lives" is not defined
+    for i, r in enumerate(rows):
+        if r["reaction"] != "b":
+            continue
+        j = i - 1
+        while j >= 0 and (rows[j]["reaction"] == "b" or rows[j]["isotope"] != r["isotope"]):
+            j -= 1
+        inp = {"table": "activation.dat", "Z": r["Z"], "A": r["A"], "field": "parent_half_life", "row": r["name"]}
+        if only is not None and only != inp:
+            continue
+        evaluations += 1
+        distinct += 1
+        if j < 0 or abs(rows[j]["Thalf_hrs"] - r["Thalf_parent"]) > 1e-9 * abs(rows[j]["Thalf_hrs"]):
+            viol.append({"key": "table_columns:parent_half_life:%s" % r["name"],
+                         "what": "row %s (decay-fed): its parent half-life %r h differs from the half-life %r h of the row that creates "
+                                 "the parent (%s)" % (r["name"], r["Thalf_parent"], rows[j]["Thalf_hrs"] if j >= 0 else None,
+                                                      rows[j]["name"] if j >= 0 else "no such row"),
+                         "input": inp, "observed": r["Thalf_parent"], "expected": rows[j]["Thalf_hrs"] if j >= 0 else None})
     for label, table in _tables(seed):
         n_rec = 0
         for (Z, A) in order:
@@ -1089,7 +1108,8 @@ COLUMNS_RULE = ("exhaustive: every data row of activation.dat (own reader: 513 r
                 "{public table, fresh private table}: elements[Z][A].neutron_activation[k].field has exactly the "
                 "value AND type of the row (int / bool ('y') / float (blank -> 0.0) / str verbatim without "
                 "surrounding quotes; Thalf_str = '<_Thalf> <_Thalf_unit>'; comments stripped); records per isotope "
-                "in file order and as many as rows; only the named fields; no records on other isotopes.  Exact "
+                "in file order and as many as rows; only the named fields; no records on other isotopes; the parent half-life of "
+                "each of the 29 decay-fed ('b') rows equals the half-life of the row creating that parent.  Exact "
                 "equality.  distinct = field comparisons whose expected value is not blank/0.")
 
 
